@@ -145,3 +145,6 @@ package cty
 //@ func (cty.Value).LengthInt
 //@   trusted
 //@   ensures (and (<= 0 result) (<= result 72057594037927936) (= result (len_int val)))
+//
+//@ global cty.EmptyTupleVal (and (is_tuple_ty (vty $g)) (= (tuple_len (vty $g)) 0) (wf_ty (vty $g)) (plain $g) (is_seq_payload $g) (= (Slice.len (pl_seq $g)) 0) (not (has_opt (vty $g))))
+//@ global cty.EmptyObjectVal (and (is_obj_ty (vty $g)) (= (obj_dom (vty $g)) empty<String>) (= (obj_opt (vty $g)) empty<String>) (wf_ty (vty $g)) (plain $g) (is_map_payload $g) (not (has_opt (vty $g))))
